@@ -102,7 +102,8 @@ _add(
           '(nine argument kinds, auto_unconfig preludes, later callables); '
           'residue of refused update_callable, or a successful one that leaves '
           'a tag behind; callees that modify their arguments; edits between '
-          'builds; TaggedValue placeholders inside containers; '
+          'builds; TaggedValue placeholders inside containers; configurations '
+          'without any history; a mutable default stored explicitly; '
           'non-trivial = DAG with >= 2 Buildables; distinct = distinct DAG hash'),
     real_vs_stub=_BUILD_RVS,
     assumptions=['the failing callable is identified by its unique uid '
@@ -169,7 +170,9 @@ _add(
           'failing / nested-building callable, deepcopy, ==, JSON round trip, '
           'history read, short-lived configs of a callable nothing else '
           'configures, sequences of growing length, late registration of a '
-          'node traverser, stand-alone TaggedValues, set_tagged) on its own configs, some of which are per-thread deep '
+          'node traverser, stand-alone TaggedValues, set_tagged, a thread that '
+          'ends with tracking switched off followed by a second generation of '
+          'threads) on its own configs, some of which are per-thread deep '
           'copies of templates made before the threads start; '
           'non-trivial = >= 1 context switch; '
           'distinct = distinct (programs, interleaving digest)'),
@@ -294,7 +297,9 @@ _add(
           're-used caller-owned set, leaves that cannot be deep-copied (a '
           'refusal is loud and accepted, a copy that is returned is checked), '
           'fdl.assign with a refused last keyword, values explicitly equal to '
-          'the default, the NO_VALUE sentinel (by identity), TaggedValues made '
+          'the default, a mutable default stored explicitly (cfg.x = cfg.x), a '
+          'failing deep copy followed by repair and retry, the NO_VALUE sentinel '
+          '(by identity), TaggedValues made '
           'by TaggedValue(...) / Tag.new / with_tags, suspend blocks, build; after every op the joint canon of all live roots is '
           'compared with the model heap and each (original, copy) pair is '
           'checked for shared argument dicts / tag sets / history lists; '
@@ -380,7 +385,9 @@ _add(
           'schedulable lock); migration arm: a symbol migration is registered '
           'between two dumps of one value; refused register_constant calls as '
           'process history; configurations whose callable was swapped before '
-          'the dump (stale tags); non-trivial = >= 1 '
+          'the dump (stale tags); one zlib serializer object per run, used again '
+          'after an edit that == cannot see; shared objects whose comparison '
+          'operators raise; non-trivial = >= 1 '
           'document produced; distinct = distinct case hash'),
     real_vs_stub=REAL + ('stub: configured callables, the recording '
                          'PyrefPolicy, the import seam (serialization.importlib '
@@ -431,7 +438,8 @@ _add(
           '__repr__ raises while the config is printed; parse() batches refused '
           'as a whole (non-string entry) and handed over again; call '
           'expressions with several positional / keyword literals; read-only '
-          'tag queries before printing; non-trivial = >= 2 directives applied; '
+          'tag queries before printing; whole-container overrides between entry '
+          'overrides; refused overrides across a missing dict key; non-trivial = >= 2 directives applied; '
           'distinct = distinct case hash'),
     real_vs_stub=REAL + ('real absl MultiFlag machinery; stub: configured '
                          'callables, base-config function and fiddlers in '
